@@ -83,7 +83,8 @@ def build_harness(race=False):
         # tools/covreport.sh: which statements of PDOK/texel do the checks execute at all (GOCOVERDIR collects the counters)
         # (the pattern github.com/pdok/texel/... matches nothing for a replaced module: list the packages)
         pk = subprocess.run(["go", "list", "-tags", "verif", "-deps", "./cmd/drv"], cwd=hdir, env=GOENV, stdout=subprocess.PIPE, text=True).stdout.split()
-        cmd += ["-cover", "-coverpkg=" + ",".join(x for x in pk if x.startswith("github.com/pdok/texel"))]
+        # (and the counters are only written out when the main package is instrumented too)
+        cmd += ["-cover", "-covermode=atomic", "-coverpkg=" + ",".join([x for x in pk if x.startswith("github.com/pdok/texel")] + ["verif/harness/cmd/drv"])]
     cmd.append("./cmd/drv")
     t0 = time.time()
     p = subprocess.run(cmd, cwd=hdir, env=GOENV, stdout=subprocess.PIPE, stderr=subprocess.STDOUT, text=True)
@@ -99,7 +100,7 @@ def build_texel_binary():
     out = os.path.join(BUILD, "texel")
     env = dict(GOENV)
     env["GOFLAGS"] = "-mod=readonly"
-    cov = ["-cover", "-coverpkg=github.com/pdok/texel/..."] if os.environ.get("VERIF_COVER") else []
+    cov = ["-cover", "-covermode=atomic", "-coverpkg=github.com/pdok/texel/..."] if os.environ.get("VERIF_COVER") else []
     p = subprocess.run(["go", "build", "-tags", "verif"] + cov + ["-o", out, "."], cwd=REPO, env=env,
                        stdout=subprocess.PIPE, stderr=subprocess.STDOUT, text=True)
     if p.returncode != 0:
